@@ -58,7 +58,7 @@ BUDGET = {
 REQUIRED = dict(
     monitors=['prior-callback', 'loglike-equals-gaussian', 'callback-never-raises', 'invalid-never-finite',
               'same-vector-same-value', 'sampled-space-order', 'ndim-handed-to-sampler', 'nan-model-never-finite'],
-    classes=['width-kind:3', 'model:nan-in-every-bin-without-rejection', 'bins:two-share-a-centre', 'callback-argument:one-buffer-refilled-in-place', 'callback-argument:fresh-per-point', 'sampler:nestle', 'sampler:multinest', 'sampler:polychord',
+    classes=['history:a-hundred-points-earlier-ones-again', 'width-kind:3', 'model:nan-in-every-bin-without-rejection', 'bins:two-share-a-centre', 'callback-argument:one-buffer-refilled-in-place', 'callback-argument:fresh-per-point', 'sampler:nestle', 'sampler:multinest', 'sampler:polychord',
              'prior:mode-linear', 'prior:mode-log', 'prior:Uniform', 'prior:LogUniform', 'prior:Gaussian',
              'prior:LogGaussian', 'cube:interior', 'cube:face', 'cube:corner',
              'invalid:chem>1', 'invalid:inverted-nodes', 'invalid:guillot',
@@ -444,8 +444,20 @@ def wl_sequence(ctx, rng):
     script.append(e0)
     metas.append(m0)
     n_mid = int(rng.integers(2, 5))
+    long = ctx.case['index'] % 25 == 11
+    if long:
+        # a long run of the sampler on one optimizer: a hundred and more points, earlier points coming back (a walker
+        # stepping back, a point re-evaluated for the output) long after they were first seen
+        n_mid = int(rng.integers(90, 140)) if ctx.tier == 'quick' else int(rng.integers(300, 1200))
+        ctx.observe('history:a-hundred-points-earlier-ones-again')
     kinds = ['interior', 'face', 'corner', 'failpoint'] + (['invalid', 'invalid'] if cap else [])
-    for _ in range(n_mid):
+    for j_ in range(n_mid):
+        if long and j_ % 12 == 11:
+            k_ = int(rng.integers(0, max(len(script) - 70, 1)))
+            if 'u' in script[k_] and not metas[k_].get('failpoint'):
+                script.append({'u': list(script[k_]['u'])})
+                metas.append({'kind': metas[k_]['kind'], 'repeat_of': k_})
+                continue
         kind = kinds[rng.integers(0, len(kinds))]
         if kind == 'failpoint':
             e, m = make_entry(rng, decls, 'interior')
